@@ -13,7 +13,7 @@ import copy, json, os, re, subprocess, sys
 from concurrent.futures import ThreadPoolExecutor
 import vlib
 
-COQ_FILES = ["Config/Model.v", "Config/Spec.v", "Config/Proofs.v", "Config/Props.v"]
+COQ_FILES = ["Config/Model.v", "Config/Spec.v", "Config/Defaults.v", "Config/Proofs.v", "Config/Props.v"]
 PRE = "From PV Require Import Config.Model.\nFrom Coq Require Import ZArith List Bool. Import ListNotations. Open Scope Z_scope."
 TMPDIR = os.path.join(vlib.TMP, "c15")
 ADMIN = ["SHOW DATABASES", "SHOW POOLS", "SHOW STATS", "SHOW CONFIG", "SHOW BANS", "SHOW LISTS", "SHOW USERS", "SHOW SERVERS",
@@ -815,6 +815,137 @@ def run_corpus(run, binp):
                           dict(rep, correspondence="regression corpus of props/c15.py vs config::parse"), found_input=False)
     return n
 
+# ----------------------------------------------------------------------------- defaults (values of omitted options)
+def translate(run):
+    """T1: regenerate coq/Gen/ConfigDefaults.v (and the JSON census) from /repo/src/config.rs."""
+    os.makedirs(os.path.join(vlib.COQ, "Gen"), exist_ok=True)
+    os.makedirs(TMPDIR, exist_ok=True)
+    out = os.path.join(vlib.COQ, "Gen", "ConfigDefaults.v")
+    tmp, js = out + ".new", os.path.join(TMPDIR, "defaults_census.json")
+    rc, log = vlib.sh([sys.executable, os.path.join(vlib.ROOT, "translate", "cfg_defaults.py"), os.path.join(vlib.REPO, "src", "config.rs"), tmp, js], timeout=60)
+    if rc != 0:
+        return False, log.strip()
+    new = open(tmp).read()
+    if not os.path.exists(out) or open(out).read() != new:
+        os.replace(tmp, out)
+    else:
+        os.remove(tmp)
+    return True, ""
+
+
+# a value different from the default for every defaulted option: (TOML literal, value as serialised)
+FULL = {
+    "general.host": ('"127.0.0.9"', "127.0.0.9"), "general.port": ("6999", 6999), "general.prometheus_exporter_port": ("9931", 9931),
+    "general.connect_timeout": ("1001", 1001), "general.idle_timeout": ("600001", 600001), "general.tcp_keepalives_idle": ("6", 6),
+    "general.tcp_keepalives_count": ("6", 6), "general.tcp_keepalives_interval": ("6", 6), "general.tcp_user_timeout": ("10001", 10001),
+    "general.log_client_connections": ("true", True), "general.log_client_disconnections": ("true", True), "general.dns_cache_enabled": ("true", True),
+    "general.dns_max_ttl": ("31", 31), "general.shutdown_timeout": ("60001", 60001), "general.healthcheck_timeout": ("1001", 1001),
+    "general.healthcheck_delay": ("30001", 30001), "general.ban_time": ("61", 61), "general.idle_client_in_transaction_timeout": ("1", 1),
+    "general.server_lifetime": ("3600001", 3600001), "general.server_round_robin": ("false", False), "general.worker_threads": ("5", 5),
+    "general.autoreload": ("15000", 15000), "general.server_tls": ("true", True), "general.verify_server_certificate": ("true", True),
+    "general.admin_auth_type": ('"trust"', "Trust"), "general.validate_config": ("false", False),
+    "pools.pool_mode": ('"session"', "Session"), "pools.load_balancing_mode": ('"loc"', "LeastOutstandingConnections"), "pools.default_role": ('"replica"', "replica"),
+    "pools.query_parser_enabled": ("true", True), "pools.query_parser_read_write_splitting": ("true", True), "pools.primary_reads_enabled": ("true", True),
+    "pools.sharding_function": ('"sha1"', "Sha1"), "pools.automatic_sharding_key": ('"data.id"', "data.id"), "pools.default_shard": ('"random"', "random"),
+    "pools.cleanup_server_connections": ("false", False), "pools.log_client_parameter_status_changes": ("true", True),
+    "pools.prepared_statements_cache_size": ("7", 7), "pools.db_activity_based_routing": ("true", True), "pools.db_activity_init_delay": ("101", 101),
+    "pools.db_activity_ttl": ("901", 901), "pools.table_mutation_cache_ms_ttl": ("51", 51),
+    "users.auth_type": ('"trust"', "Trust"), "users.statement_timeout": ("9", 9),
+}
+
+
+def defaults_toml(setopts):
+    """A file that sets exactly the defaulted options in setopts (option -> TOML literal); everything else that can be omitted is."""
+    sec = {"general": [], "pools": [], "users": []}
+    for o, lit in setopts.items():
+        s_, name = o.split(".", 1)
+        sec[s_].append("%s = %s" % (name, lit))
+    return ("[general]\nadmin_username = \"admin\"\nadmin_password = \"admin\"\n" + "\n".join(sec["general"]) + "\n[pools.db]\n" + "\n".join(sec["pools"]) +
+            "\n[pools.db.users.0]\nusername = \"u\"\npassword = \"pw\"\npool_size = 5\n" + "\n".join(sec["users"]) +
+            "\n[pools.db.shards.0]\ndatabase = \"d0\"\nservers = [[\"127.0.0.1\", 1, \"primary\"]]\n")
+
+
+def parsed_value(cfgjson, option):
+    s_, name = option.split(".", 1)
+    node = cfgjson["general"] if s_ == "general" else (cfgjson["pools"]["db"] if s_ == "pools" else cfgjson["pools"]["db"]["users"]["0"])
+    return node.get(name, "<absent>")
+
+
+def dval(x):
+    x = ident(x)
+    if x == "DNone":
+        return None
+    tag, v = x[0], ident(x[1])
+    if tag == "DBool":
+        return v if isinstance(v, bool) else v == "true"
+    return bstr(v) if tag == "DStr" else v
+
+
+def defaults_check(run, binp, tr_ok):
+    """Values of omitted options: parsed file vs the pinned table (Config/Defaults.v), vs the Default impls, one option at a time."""
+    n = 0
+    census = json.load(open(os.path.join(TMPDIR, "defaults_census.json"))) if tr_ok else {"table": [], "problems": []}
+    try:
+        (pv,) = vlib.coq_eval("c15_defaults", "From PV Require Import Config.Defaults.", ["pinned_defaults"], shard=1)
+        pinned = {bstr(k): dval(v) for k, v in vlib.parse_coq(pv)}
+    except Exception as ex:          # Defaults.v itself does not build
+        run.broken.append("Config/Defaults.v cannot be evaluated: %s" % str(ex)[-300:])
+        return 0
+    options = sorted(set(pinned) | {t["option"] for t in census["table"]})
+    missing_full = [o for o in options if o not in FULL]
+    unpinned = [o for o in options if o not in pinned]
+    if missing_full or unpinned:
+        run.violation("tie-broken", "src/config.rs has defaulted options the C15 defaults table does not know: %s" % (missing_full + unpinned),
+                      {"correspondence": "translate/cfg_defaults.py census vs Config/Defaults.v pinned_defaults / props/c15.py FULL", "options": missing_full + unpinned}, found_input=False)
+        options = [o for o in options if o in FULL and o in pinned]
+    jobs = [{"toml": defaults_toml({}), "dump": True, "parse_only": True}, {"toml": defaults_toml({o: FULL[o][0] for o in options}), "dump": True, "parse_only": True}]
+    for o in options:
+        setopts = {k: FULL[k][0] for k in options if k != o}
+        if o == "pools.query_parser_enabled":
+            setopts["pools.query_parser_read_write_splitting"] = "false"     # splitting needs the parser
+        jobs.append({"toml": defaults_toml(setopts), "dump": True, "parse_only": True})
+    res = run_harness(binp, jobs + [{"op": "defaults"}])
+    struct_defaults = res.pop()
+    for j, (job, r) in enumerate(zip(jobs, res)):
+        what = "all defaulted options omitted" if j == 0 else ("all defaulted options set" if j == 1 else "only %s omitted" % options[j - 2])
+        rep = {"input": {"toml": job["toml"], "shape": what}, "impl": {k: r.get(k) for k in ("accept", "error")}}
+        if not r.get("accept"):
+            run.violation("tie-broken", "defaults file (%s) is rejected: %s" % (what, r.get("error")), dict(rep, correspondence="props/c15.py defaults files vs config::parse"), found_input=False)
+            continue
+        omitted = options if j == 0 else ([] if j == 1 else [options[j - 2]])
+        for o in options:
+            n += 1
+            got = parsed_value(r["config"], o)
+            if o in omitted:
+                want, src = pinned[o], "the documented default (Config/Defaults.v pinned_defaults)"
+            else:
+                want, src = FULL[o][1], "the value written in the file"
+                if j >= 2 and options[j - 2] == "pools.query_parser_enabled" and o == "pools.query_parser_read_write_splitting":
+                    want = False
+            if got != want:
+                run.violation("counterexample", "%s: option %s is %r after parsing, %s is %r" % (what, o, got, src, want),
+                              dict(rep, option=o, parsed=got, expected=want, census=[t for t in census["table"] if t["option"] == o]))
+        if j == 0:
+            # the two ways of defaulting must agree: serde's per-field default vs the struct's Default impl
+            for o in options:
+                s_, name = o.split(".", 1)
+                d = struct_defaults[s_].get(name, "<absent>")
+                n += 1
+                if d != parsed_value(r["config"], o):
+                    run.violation("counterexample", "option %s: a file omitting it gets %r, %s::default() holds %r" % (
+                        o, parsed_value(r["config"], o), {"general": "General", "pools": "Pool", "users": "User"}[s_], d), dict(rep, option=o))
+    # census: each serde attribute names the function of its own field, and that function yields the pinned value
+    for t in census["table"]:
+        n += 1
+        if t["option"] in pinned and t["value"] != pinned[t["option"]] and not run.violations:
+            run.violation("tie-broken", "source census: %s defaults to %r through %s, pinned %r; no parsed file showed the difference" % (t["option"], t["value"], t["from"], pinned[t["option"]]),
+                          {"correspondence": "translate/cfg_defaults.py vs Config/Defaults.v", "census": t}, found_input=False)
+    if census["problems"] and not run.violations:
+        run.violation("tie-broken", "source census: %s (values agree today)" % census["problems"][0], {"correspondence": "serde default attribute <-> own default_x function", "problems": census["problems"]}, found_input=False)
+    run.cov["defaults"] = {"options": len(options), "files": len(jobs), "comparisons": n, "census_problems": census["problems"]}
+    return n
+
+
 # ----------------------------------------------------------------------------- check
 def resource_guard(cfg):
     """min_pool_size is a number of server connections bb8 opens eagerly (one task each): an accepted
@@ -897,7 +1028,7 @@ def check(run):
     quick = run.tier == "quick"
     rng = run.rng
     run.assumptions += [
-        "Coq 8.16.1 kernel + vm_compute; no axioms (Print Assumptions: closed under the global context for all 36 theorems)",
+        "Coq 8.16.1 kernel + vm_compute; no axioms (Print Assumptions: closed under the global context for all 39 theorems)",
         "coq/Config/Model.v is a hand transcription of Config/Pool/Shard/User::validate, the DefaultShard deserialiser, fill_up_auth_query_config, from_config's construction "
         "and the index operations of pool.rs/admin.rs (validated each run against the real code on the generated files)",
         "toml 0.7 + serde derive (types, required fields, Role aliases) and the regex crate's verdict on a pattern are environment: the model starts from the typed structs "
@@ -907,19 +1038,31 @@ def check(run):
         "Tls::new() is run on accepted files but is outside the model",
         "bb8 builder arguments (max_size, min_idle, idle_timeout, max_lifetime) are not observable through the public API: modelled; connection_timeout is observed by coarse timing (40 ms vs 2500 ms) of get() against a refusing server",
         "PoolSettings fields copied unchanged (healthcheck_*, ban_time, load_balancing_mode, sharding_function, regex_search_limit, query_parser_max_length, checkout_failure_limit, primary_reads_enabled) are checked by the model-free monitor only",
+        "translate/cfg_defaults.py reads the serde default attributes and the literal bodies of the default_* functions of src/config.rs (fails on shapes it does not know); "
+        "Config/Defaults.v pinned_defaults is the documented table (CONFIG.md's 'default:' lines describe the example pgcat.toml and disagree with the code on several options, "
+        "so they are not used as the reference)",
         "hypotheses of c15_accepted_servable besides acceptance: fewer than 2^63 shards per pool, DefaultShard::Shard carries a usize (non-negative)",
     ]
     run.cov["trusted_base"] = ["coqc 8.16.1 kernel", "vm_compute", "coq/Config/Model.v (hand transcription)", "harness/src/cfgwalk.rs + bin/config.rs",
                                "props/c15.py generator / TOML writer / canonicaliser", "toml+serde, regex, bb8 crates (environment)",
                                "Print Assumptions: Closed under the global context (all theorems)"]
-    proof_ok, log = vlib.prove(run, COQ_FILES, "Config/Props.v")
-    run.log("proof ok=%s" % proof_ok)
+    tr_ok, tr_msg = translate(run)
+    proof_ok, log = (False, tr_msg)
+    if tr_ok:
+        proof_ok, log = vlib.prove(run, COQ_FILES + ["Gen/ConfigDefaults.v"], "Config/Props.v")
+    run.log("translate ok=%s proof ok=%s" % (tr_ok, proof_ok))
     ok, blog, bins = vlib.cargo_build(["config"])
     if not ok:
         run.violation("tie-broken", "harness does not build against /repo (API used by the correspondence changed)",
                       {"correspondence": "config harness build", "log": blog[-3000:]}, found_input=False)
         return
     binp = bins["config"]
+
+    if not tr_ok:
+        run.violation("tie-broken", "translate/cfg_defaults.py no longer recognises the defaults of src/config.rs: %s" % tr_msg[-300:],
+                      {"correspondence": "translate/cfg_defaults.py", "log": tr_msg[-2000:]}, found_input=False)
+    ndefaults = defaults_check(run, binp, tr_ok)
+    run.log("defaults: %d comparisons, violations so far: %d" % (ndefaults, len(run.violations)))
 
     ncorpus = run_corpus(run, binp)
     run.log("regression corpus: %d files, violations so far: %d" % (ncorpus, len(run.violations)))
@@ -951,7 +1094,7 @@ def check(run):
             model_vals[i] = vlib.parse_coq(v)
     run.log("model evaluated on %d typed files" % len(model_vals))
 
-    evals, distinct, samples = ncorpus, set(t for _, t, _ in CORPUS), []
+    evals, distinct, samples = ncorpus + ndefaults, set(t for _, t, _ in CORPUS), []
     hist = {"accepted": 0, "rejected": 0, "untyped": 0, "mutations": {}}
     classes = set()
     for i, ((names, cfg), toml, r) in enumerate(zip(cases, tomls, res)):
